@@ -50,6 +50,14 @@ def parseSchedTok (t : String) : Option (Sum Nat Ev) :=
       | some ti, some r => some (.inr (.append ti r))
       | _, _ => none
     | _ => none
+  else if t.startsWith "S" then        -- S<table>:<index>:<val>+<val>…  (records[index] = record)
+    match (t.drop 1).toString.splitOn ":" with
+    | [ti, i, vals] =>
+      match ti.toNat?, i.toNat?, (if vals = "" then some [] else (vals.splitOn "+").mapM Wire.parseVal) with
+      | some ti, some i, some r => some (.inr (.replace ti i r))
+      | _, _, _ => none
+    | _ => none
+  else if t.startsWith "V" then (t.drop 1).toString.toNat?.map fun ti => .inr (.reverse ti)
   else t.toNat?.map .inl
 
 /-- iterator entries become `start` events at their first occurrence; iterators never mentioned are
